@@ -135,11 +135,14 @@ def round_trip(product, what):
     def sig(r):
         c = Counter()
         for f in r.features:
+            if f.location is None:          # Biopython could not parse what was written
+                c[(f.type, "unreadable location")] += 1
+                continue
             c[(f.type, tuple(sorted((a, b, 1 if s is None else s) for a, b, s in dna.loc_parts(f.location))))] += 1
         return c
     a, b = sig(product), sig(back)
     if a != b:
-        diff = sorted((a - b).items())[:3], sorted((b - a).items())[:3]
+        diff = sorted((a - b).items(), key=str)[:3], sorted((b - a).items(), key=str)[:3]
         raise Violation("GENBANK-FEATURES", "%s: features changed in the GenBank round trip: lost %r gained %r" % ((what,) + diff))
     try:
         CircularRecord(back)
